@@ -60,6 +60,11 @@ pub proof fn end_of_input_binds_nothing()
 fn verif_panic() -> (r: Precedence) requires false { unimplemented!() }
 
 pub struct Token { pub kind: TokenKind }
+#[verifier::external_body]
+#[verifier::accept_recursive_types(T)]
+pub struct Root<T> { p: core::marker::PhantomData<T> }
+pub struct ObjFunction { }
+pub struct Error { }
 // one row of the table, as seen by the extracted code
 pub struct ParseRule { pub prefix: Option<ParseFnName>, pub infix: Option<ParseFnName>, pub precedence: Precedence }
 
@@ -98,12 +103,18 @@ impl Parser {
             final(self).code == old(self).code, final(self).parsed_at == old(self).parsed_at, final(self).ended_code == old(self).ended_code, final(self).ended_tokens == old(self).ended_tokens, final(self).bound == old(self).bound,
             final(self).single_target_mode == old(self).single_target_mode, final(self).nesting == old(self).nesting, old(self).had_error ==> final(self).had_error,
     { unimplemented!() }
-    #[verifier::external_body]
-    fn match_token(&mut self, kind: TokenKind) -> (r: bool)
-        requires old(self).stream_ok()
-        ensures final(self).stream_ok(), old(self).extends(final(self)), final(self).code == old(self).code, final(self).parsed_at == old(self).parsed_at, final(self).ended_code == old(self).ended_code, final(self).ended_tokens == old(self).ended_tokens, final(self).bound == old(self).bound,
-            final(self).single_target_mode == old(self).single_target_mode, final(self).nesting == old(self).nesting, !r ==> final(self).current == old(self).current,
-    { unimplemented!() }
+    //@fn file=yarel/src/compiler.rs path=Parser::check ret=r
+    //@  ensures r == (self.current.kind == kind)
+    //@end
+    // match_token: consumes the current token iff it is of the given kind
+    //@fn file=yarel/src/compiler.rs path=Parser::match_token ret=r
+    //@  requires old(self).stream_ok()
+    //@  ensures final(self).stream_ok(), old(self).extends(final(self)), final(self).code == old(self).code, final(self).parsed_at == old(self).parsed_at, final(self).ended_code == old(self).ended_code, final(self).ended_tokens == old(self).ended_tokens, final(self).bound == old(self).bound
+    //@  ensures final(self).single_target_mode == old(self).single_target_mode, final(self).nesting == old(self).nesting
+    //@  ensures r == (old(self).current.kind == kind)
+    //@  ensures !r ==> final(self).current == old(self).current && final(self).tokens_left == old(self).tokens_left && final(self).previous == old(self).previous && final(self).had_error == old(self).had_error
+    //@  ensures @a_matched_token_is_consumed r ==> final(self).tokens_left == (if old(self).tokens_left > 0 { (old(self).tokens_left - 1) as nat } else { 0 })
+    //@end
     #[verifier::external_body]
     fn error(&mut self, message: &str)
         ensures final(self).had_error, final(self).code == old(self).code, final(self).tokens_left == old(self).tokens_left, final(self).current == old(self).current,
@@ -160,6 +171,7 @@ impl Parser {
     //@  at body.start let ghost b0 = self.bound.len(); let ghost n0 = self.parsed_at.len() as int; proof { self.parsed_at = self.parsed_at.push(precedence); }
     //@  before_stmt "return;" proof { self.ended_code = self.ended_code.insert(n0, self.code@.len() as int); self.ended_tokens = self.ended_tokens.insert(n0, self.tokens_left); }
     //@  at body.end proof { self.ended_code = self.ended_code.insert(n0, self.code@.len() as int); self.ended_tokens = self.ended_tokens.insert(n0, self.tokens_left); }
+    //@  loop 0 invariant old(self).tokens_left > 0 ==> self.tokens_left < old(self).tokens_left
     //@  loop 0 invariant self.stream_ok(), old(self).extends(self), self.bound.len() >= b0, self.bound.subrange(0, b0 as int) == old(self).bound, self.single_target_mode == old(self).single_target_mode, self.nesting == old(self).nesting
     //@  loop 0 invariant forall|i: int| b0 <= i < self.bound.len() ==> prec_index(rule_precedence(#[trigger] self.bound[i])) >= prec_index(precedence)
     //@  loop 0 invariant prec_index(precedence) >= prec_index(Precedence::Assignment), n0 == old(self).parsed_at.len(), 1 <= self.nesting <= NESTING_MAX
@@ -172,6 +184,7 @@ impl Parser {
     //@  ensures final(self).parsed_at.len() > old(self).parsed_at.len(), prefix_of(old(self).parsed_at, final(self).parsed_at), final(self).parsed_at[old(self).parsed_at.len() as int] == precedence
     //@  ensures ends_kept(old(self).parsed_at.len() as int, old(self).ended_code, old(self).ended_tokens, final(self).ended_code, final(self).ended_tokens)
     //@  ensures ({ let n = old(self).parsed_at.len() as int; final(self).ended_code.dom().contains(n) && final(self).ended_code[n] == final(self).code@.len() && final(self).ended_tokens.dom().contains(n) && final(self).ended_tokens[n] == final(self).tokens_left })
+    //@  ensures old(self).tokens_left > 0 ==> final(self).tokens_left < old(self).tokens_left
     //@  ensures @only_operators_at_or_above_the_requested_level_are_bound final(self).bound.len() >= old(self).bound.len() && final(self).bound.subrange(0, old(self).bound.len() as int) == old(self).bound && forall|i: int| old(self).bound.len() <= i < final(self).bound.len() ==> prec_index(rule_precedence(#[trigger] final(self).bound[i])) >= prec_index(precedence)
     //@  ensures @stops_at_the_first_weaker_operator final(self).had_error || prec_index(rule_precedence(final(self).current.kind)) < prec_index(precedence)
     //@end
@@ -182,6 +195,7 @@ impl Parser {
     //@  rewrite R11
     //@  requires old(self).stream_ok(), old(self).nesting <= NESTING_MAX
     //@  ensures final(self).stream_ok(), old(self).extends(final(self)), final(self).code == old(self).code, final(self).parsed_at == old(self).parsed_at, final(self).bound == old(self).bound, final(self).ended_code == old(self).ended_code, final(self).ended_tokens == old(self).ended_tokens, final(self).single_target_mode == old(self).single_target_mode
+    //@  ensures r || old(self).tokens_left == 0 || final(self).tokens_left < old(self).tokens_left
     //@  ensures @an_accepted_level_is_within_the_bound r ==> final(self).nesting == old(self).nesting + 1 && final(self).nesting <= NESTING_MAX && final(self).tokens_left == old(self).tokens_left && final(self).current == old(self).current && final(self).previous == old(self).previous && final(self).had_error == old(self).had_error
     //@  ensures @a_level_beyond_the_bound_is_a_compile_error_that_consumes_input !r ==> final(self).had_error && final(self).nesting == old(self).nesting && (old(self).tokens_left > 0 ==> final(self).tokens_left < old(self).tokens_left)
     //@end
@@ -190,6 +204,7 @@ impl Parser {
     //@  requires old(self).stream_ok(), prec_index(precedence) >= prec_index(Precedence::Assignment), old(self).nesting <= NESTING_MAX
     //@  ensures final(self).stream_ok(), old(self).extends(final(self)), final(self).single_target_mode == old(self).single_target_mode
     //@  ensures @the_nesting_count_is_restored final(self).nesting == old(self).nesting
+    //@  ensures @parsing_an_expression_consumes_input old(self).tokens_left > 0 ==> final(self).tokens_left < old(self).tokens_left
     //@  ensures prefix_of(old(self).parsed_at, final(self).parsed_at), ends_kept(old(self).parsed_at.len() as int, old(self).ended_code, old(self).ended_tokens, final(self).ended_code, final(self).ended_tokens)
     //@  ensures final(self).had_error || (final(self).parsed_at.len() > old(self).parsed_at.len() && final(self).parsed_at[old(self).parsed_at.len() as int] == precedence)
     //@  ensures final(self).had_error || ({ let n = old(self).parsed_at.len() as int; final(self).ended_code.dom().contains(n) && final(self).ended_code[n] == final(self).code@.len() && final(self).ended_tokens.dom().contains(n) && final(self).ended_tokens[n] == final(self).tokens_left })
@@ -197,26 +212,90 @@ impl Parser {
     //@  ensures final(self).had_error || prec_index(rule_precedence(final(self).current.kind)) < prec_index(precedence)
     //@end
 
-    // statements nested in a block (recursion back into block() / parse_precedence() happens below this call)
+    // the parsers of the individual statement / declaration kinds (entered after their keyword has been consumed):
+    // they never un-consume a token, keep the nesting count, and recurse only through block() / parse_precedence()
     #[verifier::external_body]
-    fn declaration(&mut self)
-        requires old(self).stream_ok(), 1 <= old(self).nesting <= NESTING_MAX
-        ensures final(self).stream_ok(), old(self).extends(final(self)), final(self).nesting == old(self).nesting, final(self).single_target_mode == old(self).single_target_mode
+    fn nested_statement_parser(&mut self)
+        requires old(self).stream_ok(), old(self).nesting <= NESTING_MAX
+        ensures final(self).stream_ok(), final(self).tokens_left <= old(self).tokens_left, final(self).nesting == old(self).nesting, final(self).single_target_mode == old(self).single_target_mode
     { unimplemented!() }
     #[verifier::external_body]
-    fn check(&self, kind: TokenKind) -> bool { unimplemented!() }
+    fn check_no_attributes(&mut self)
+        ensures final(self).stream_ok() == old(self).stream_ok(), final(self).tokens_left <= old(self).tokens_left, final(self).nesting == old(self).nesting, final(self).single_target_mode == old(self).single_target_mode, final(self).tokens_left == old(self).tokens_left, final(self).current == old(self).current
+    { unimplemented!() }
+    #[verifier::external_body]
+    fn begin_scope(&mut self)
+        ensures final(self).stream_ok() == old(self).stream_ok(), final(self).tokens_left <= old(self).tokens_left, final(self).nesting == old(self).nesting, final(self).single_target_mode == old(self).single_target_mode, final(self).tokens_left == old(self).tokens_left, final(self).current == old(self).current
+    { unimplemented!() }
+    #[verifier::external_body]
+    fn end_scope(&mut self)
+        ensures final(self).stream_ok() == old(self).stream_ok(), final(self).tokens_left <= old(self).tokens_left, final(self).nesting == old(self).nesting, final(self).single_target_mode == old(self).single_target_mode, final(self).tokens_left == old(self).tokens_left, final(self).current == old(self).current
+    { unimplemented!() }
+    // error recovery: skips tokens up to a statement boundary
+    #[verifier::external_body]
+    fn synchronise(&mut self)
+        requires old(self).stream_ok()
+        ensures final(self).stream_ok(), final(self).tokens_left <= old(self).tokens_left, final(self).nesting == old(self).nesting, final(self).single_target_mode == old(self).single_target_mode
+    { unimplemented!() }
+    #[verifier::external_body]
+    fn in_panic_mode(&self) -> bool { unimplemented!() }
     #[verifier::external_body]
     fn consume(&mut self, kind: TokenKind, message: &str)
         requires old(self).stream_ok()
-        ensures final(self).stream_ok(), old(self).extends(final(self)), final(self).nesting == old(self).nesting, final(self).single_target_mode == old(self).single_target_mode
+        ensures final(self).stream_ok(), final(self).tokens_left <= old(self).tokens_left, final(self).nesting == old(self).nesting, final(self).single_target_mode == old(self).single_target_mode
     { unimplemented!() }
-    // block(): one nesting level per block; the count is restored on every path (the statement loop is checked for
-    // partial correctness: progress of declaration() is the parser's error recovery, not under contract)
-    //@fn file=yarel/src/compiler.rs path=Parser::block
-    //@  attr #[verifier::exec_allows_no_decreases_clause]
+
+    // Progress (C03: compilation terminates): a statement / declaration consumes at least one token unless the input is
+    // exhausted — every branch either matched (and consumed) its keyword or parses an expression, which consumes.
+    //@fn file=yarel/src/compiler.rs path=Parser::expression_statement
+    //@  rewrite R21
     //@  requires old(self).stream_ok(), old(self).nesting <= NESTING_MAX
-    //@  loop 0 invariant self.stream_ok(), self.nesting == old(self).nesting + 1, 1 <= self.nesting <= NESTING_MAX
-    //@  ensures final(self).stream_ok()
+    //@  ensures final(self).stream_ok(), final(self).tokens_left <= old(self).tokens_left, final(self).nesting == old(self).nesting
+    //@  ensures old(self).tokens_left > 0 ==> final(self).tokens_left < old(self).tokens_left
+    //@end
+    //@fn file=yarel/src/compiler.rs path=Parser::statement
+    //@  subst "self.import_statement();" => "self.nested_statement_parser();"
+    //@  subst "self.for_statement();" => "self.nested_statement_parser();"
+    //@  subst "self.if_statement();" => "self.nested_statement_parser();"
+    //@  subst "self.return_statement();" => "self.nested_statement_parser();"
+    //@  subst "self.break_statement();" => "self.nested_statement_parser();"
+    //@  subst "self.continue_statement();" => "self.nested_statement_parser();"
+    //@  subst "self.throw_statement();" => "self.nested_statement_parser();"
+    //@  subst "self.try_statement();" => "self.nested_statement_parser();"
+    //@  subst "self.while_statement();" => "self.nested_statement_parser();"
+    //@  requires old(self).stream_ok(), old(self).nesting <= NESTING_MAX
+    //@  decreases NESTING_MAX + 1 - old(self).nesting, 2int
+    //@  ensures final(self).stream_ok(), final(self).tokens_left <= old(self).tokens_left, final(self).nesting == old(self).nesting
+    //@  ensures @a_statement_consumes_input old(self).tokens_left > 0 ==> final(self).tokens_left < old(self).tokens_left
+    //@  at body.start proof { assert(old(self).tokens_left > 0 ==> !(old(self).current.kind is Eof)); }
+    //@end
+    //@fn file=yarel/src/compiler.rs path=Parser::declaration
+    //@  subst "self.class_declaration();" => "self.nested_statement_parser();"
+    //@  subst "self.fn_declaration();" => "self.nested_statement_parser();"
+    //@  subst "self.attributes_declaration();" => "self.nested_statement_parser();"
+    //@  subst "self.var_declaration();" => "self.nested_statement_parser();"
+    //@  subst "self.panic_mode.get()" => "self.in_panic_mode()"
+    //@  requires old(self).stream_ok(), old(self).nesting <= NESTING_MAX
+    //@  decreases NESTING_MAX + 1 - old(self).nesting, 3int
+    //@  ensures final(self).stream_ok(), final(self).tokens_left <= old(self).tokens_left, final(self).nesting == old(self).nesting
+    //@  ensures @a_declaration_consumes_input old(self).tokens_left > 0 ==> final(self).tokens_left < old(self).tokens_left
+    //@end
+    // the top-level loop of Parser::parse (the error bookkeeping behind it: unit diag)
+    #[verifier::external_body]
+    fn parse_tail(&mut self) -> Result<Root<ObjFunction>, Error> { unimplemented!() }
+    //@fn file=yarel/src/compiler.rs path=Parser::parse obname=Parser::parse#declaration_loop
+    //@  truncate_at "self.check_no_attributes();" => "self.parse_tail()"
+    //@  requires old(self).stream_ok(), old(self).nesting == 0
+    //@  loop 0 invariant self.stream_ok(), self.nesting == 0
+    //@  loop 0 decreases self.tokens_left
+    //@end
+    // block(): one nesting level per block; the count is restored on every path; the statement loop terminates
+    //@fn file=yarel/src/compiler.rs path=Parser::block
+    //@  requires old(self).stream_ok(), old(self).nesting <= NESTING_MAX
+    //@  decreases NESTING_MAX + 1 - old(self).nesting, 1int
+    //@  loop 0 invariant self.stream_ok(), self.nesting == old(self).nesting + 1, 1 <= self.nesting <= NESTING_MAX, self.tokens_left <= old(self).tokens_left
+    //@  loop 0 decreases self.tokens_left
+    //@  ensures final(self).stream_ok(), final(self).tokens_left <= old(self).tokens_left
     //@  ensures @the_nesting_count_is_restored final(self).nesting == old(self).nesting
     //@end
 
@@ -224,6 +303,7 @@ impl Parser {
     //@fn file=yarel/src/compiler.rs path=Parser::expression
     //@  requires old(self).stream_ok(), old(self).nesting <= NESTING_MAX
     //@  ensures final(self).stream_ok(), old(self).extends(final(self)), final(self).single_target_mode == old(self).single_target_mode, final(self).nesting == old(self).nesting
+    //@  ensures old(self).tokens_left > 0 ==> final(self).tokens_left < old(self).tokens_left
     //@  ensures @an_expression_is_parsed_at_the_assignment_level final(self).had_error || final(self).parsed_at.len() > old(self).parsed_at.len() && final(self).parsed_at[old(self).parsed_at.len() as int] == (if old(self).single_target_mode { Precedence::BitwiseOr } else { Precedence::Assignment })
     //@end
 
